@@ -106,6 +106,23 @@ def check_table(job):
                         if not ((pd.isnull(a) and pd.isnull(b)) or a == b):
                             out['labels'].append(('output-row-differs-from-single-row-run/' + ('notes' if c == 'Analysis Notes' else 'column'), i))
                             break
+        # the histogram rows of every healthy row equal those of its single-row run (tables with >= 2 healthy float rows)
+        healthy = [i for i, r in enumerate(rows) if not isinstance(res.get('S%d' % (i + 1)), Exception) and res.get('S%d' % (i + 1)) is not None]
+        if len([i for i in healthy if rows[i]['file'] == 'ok-float']) >= 2:
+            with warnings.catch_warnings():
+                warnings.simplefilter('ignore')
+                hb = FlowCal.excel_ui.generate_histograms_table(t, res)
+                for i in healthy:
+                    rid = 'S%d' % (i + 1)
+                    ts = W.samples_table([rows[i]], variant=variant + i, style=(variant % 4 == 3))
+                    hs = FlowCal.excel_ui.generate_histograms_table(ts, {'S1': single_run(rows[i], variant + i, bf)})
+                    a = hb.loc[rid] if rid in hb.index.get_level_values(0) else None
+                    b = hs.loc['S1'] if 'S1' in hs.index.get_level_values(0) else None
+                    same = (a is None and b is None) or (a is not None and b is not None and a.shape == b.shape and
+                                                         np.array_equal(np.nan_to_num(a.values.astype(float), nan=-1.0),
+                                                                        np.nan_to_num(b.values.astype(float), nan=-1.0)))
+                    if not same:
+                        out['labels'].append(('histogram-rows-differ-from-single-row-run', i))
     except Exception as e:  # noqa
         out['labels'].append(('stats-aborted/' + type(e).__name__, -1))
     return out
